@@ -17,6 +17,7 @@ import Skc.Tie.discordance
 import Skc.Tie.rank_values
 import Skc.Tie.electre1_outrank
 import Skc.Tie.electre1_kernel
+import Skc.Tie.fmf
 import Skc.Props.C03
 import Skc.Props.C04
 import Skc.Props.C06
@@ -141,6 +142,21 @@ end field
 theorem wpm_prod (A : Mat m n ℝ) (hA : ∀ i j, 0 < A i j) (w : Vec n ℝ) (i : Fin m) :
     (10 : ℝ) ^ (Gen.wpm ⟨A⟩ ⟨w⟩).v i = ∏ j, A i j ^ w j := by
   rw [tie_wpm]; exact C04.wpm_prod A hA w i
+
+/-- C06, `agg/moora.py::fmf` as coded (both branches of the two `if … in objectives`): a dominating alternative scores strictly higher -/
+theorem fmf_dominance (A : Mat m n ℝ) (hA : ∀ i j, 0 < A i j) (o : Vec n Obj) (w : Vec n ℝ) (hw : ∀ j, 0 < w j)
+    (a b : Fin m) (hd : dominates o (A a) (A b)) :
+    (Gen.fmf ⟨A⟩ (objs o) ⟨w⟩).v b < (Gen.fmf ⟨A⟩ (objs o) ⟨w⟩).v a := by
+  unfold objs; rw [tie_fmf]; exact C06.fmfCode_dom_strict A hA o w hw (Nat.pos_of_ne_zero (NeZero.ne n)) a b hd
+
+/-- C04, `fmf`: with at least one maximise criterion the coded score is the published one … -/
+theorem fmf_eq_formula (A : Mat m n ℝ) (o : Vec n Obj) (w : Vec n ℝ) (h : ∃ j, o j = .max) (i : Fin m) :
+    (Gen.fmf ⟨A⟩ (objs o) ⟨w⟩).v i = Agg.fmfSpec A o w i := by
+  unfold objs; rw [tie_fmf]; exact C04.fmf_eq_formula A o w h i
+/-- … and the published one **plus 1** when there is none: the known finding K2, as a statement about today's source -/
+theorem fmf_no_max (A : Mat m n ℝ) (o : Vec n Obj) (w : Vec n ℝ) (h : ∀ j, o j = .min) (i : Fin m) :
+    (Gen.fmf ⟨A⟩ (objs o) ⟨w⟩).v i = 1 + Agg.fmfSpec A o w i := by
+  unfold objs; rw [tie_fmf]; exact C04.fmf_no_max A o w h (Nat.pos_of_ne_zero (NeZero.ne n)) i
 
 /-- C13, `std_weights`: the weights sum to one as soon as one criterion is not constant -/
 theorem std_weights_sum_one (hm : 2 ≤ m) (A : Mat m n ℝ) (h : ∃ j, ∃ i i', A i j ≠ A i' j) :
